@@ -157,8 +157,9 @@ def rule_sample(ctx: Ctx):
     ctx.require(bnds, "R-C16-2", "`bound_inf, bound_sup = <reference>.bounds` not found")
     b_inf, b_sup = [norm(x) for x in bnds[0].targets[0].elts]
     # the per-unit loop
-    uloops = [n for n in walk_no_nested(node) if isinstance(n, ast.For) and isinstance(n.iter, ast.Call) and
-              norm(n.iter.func) in (f"{ref}.iter_annotator", f"{ref}.iterunits")]
+    ref_names = set(refs) | {f"{sn}._reference_continuum"}       # every local that is the reference continuum
+    uloops = [n for n in walk_no_nested(node) if isinstance(n, ast.For) and isinstance(n.iter, ast.Call) and isinstance(n.iter.func, ast.Attribute) and
+              n.iter.func.attr in ("iter_annotator", "iterunits") and norm(n.iter.func.value) in ref_names]
     ctx.require(len(uloops) == 1, "R-C16-2", "loop over the units of the drawn annotator not found")
     ul = uloops[0]
     uvar = norm(ul.target)
@@ -323,7 +324,7 @@ def rule_sample(ctx: Ctx):
               bad_detail="minimal distance between pivots is not avg_length_unit / 2", construct="min_dist_between_pivots", key="dist")
     avail = None
     rm = [n for n in ast.walk(al) if isinstance(n, ast.Assign) and isinstance(n.value, ast.Call) and
-          norm(n.value.func) in (f"{sn}._remove_pivot_segment", "ShuffleContinuumSampler._remove_pivot_segment")]
+          norm(n.value.func).split(".")[-1] == "_remove_pivot_segment"]
     if rm:
         c = rm[0].value
         avail = norm(rm[0].targets[0])
